@@ -1,1 +1,397 @@
-//! physical layout dump (see spec/base/ArrowLayout.tla)
+//! Physical dump of an `ArrayData` for `spec/ArrowLayout.tla` (C01, C08, C09).
+//!
+//! This is a *projection*, never an oracle: it copies sizes, pointer residues and
+//! the structurally relevant buffer contents into JSON; every judgement
+//! (`WellFormed`) is made by TLC.  It only uses plain getters of `ArrayData`
+//! (`data_type/len/offset/buffers/child_data/nulls`) and reads buffer bytes with
+//! bounds checks, so it is safe on malformed layouts too.
+//!
+//! Layout record (all fields always present unless stated):
+//! ```text
+//! { "t": TypeDesc, "len": int, "offset": int, "lo_ovf": bool,
+//!   "nulls": { "present": bool, "nbits": int, "boff": int, "bits": [0|1..], "nc": int },
+//!   "bufs": [ { "nbytes": int, "amod": int, "base": int, "ints": [int..] } .. ],
+//!   "views": [ { "len": int, "b": [12 ints], "bi": int, "off": int } .. ]   (view kinds only; window offset..offset+len)
+//!   "kids": [ layout .. ] }
+//! TypeDesc = { "k": kind, "w": int, "size": int, "mode": ""|"sparse"|"dense", "ids": [int..],
+//!              "s": type string, "kt": [child type strings the data type declares],
+//!              "cn": [nullable flag of each declared child field], "mk": bool (map key field nullable),
+//!              "ok": bool (type-level constraints the dump checked syntactically, see `type_desc`) }
+//! ```
+//! * kinds: null bool prim fsb bin utf8 binview utf8view list listview fsl struct map dict ree union
+//! * `w`: byte width of a primitive / offset width (4|8) / key width / run-end width.
+//! * Integers are clamped **symmetrically to ±2^30** (`HUGE`); TLC has 32-bit integers.  The
+//!   specification treats `HUGE` as "at least 2^30" with saturating arithmetic; `lo_ovf`
+//!   says whether `len + offset` overflows `usize` (computed on the unclamped values).
+//! * `nulls`: `nbits` = number of addressable bits of the validity bitmap, `boff` = bit index of
+//!   row 0 in it, `bits` = the bits `boff .. boff+len` that exist, `nc` = the *reported* null count.
+//! * `bufs[i].amod` = `ptr mod A` where `A` is the natural (Rust) alignment of the element type the
+//!   format prescribes for that buffer (1 for byte data); `ints` = the buffer decoded at that width
+//!   for the element window `base .. base+n` (`base` = array offset; offsets buffers have `len+1`
+//!   entries), raw bytes (base 0, whole buffer) for UTF-8 data and view data buffers, empty where
+//!   only the size matters (primitive values, boolean values, binary data).
+use arrow_buffer::{Buffer, NullBuffer};
+use arrow_data::ArrayData;
+use arrow_schema::{DataType, IntervalUnit, UnionMode};
+use serde_json::{json, Value};
+
+pub const HUGE: i64 = 1 << 30;
+
+pub fn clamp(v: i128) -> i64 {
+    if v >= HUGE as i128 {
+        HUGE
+    } else if v <= -(HUGE as i128) {
+        -HUGE
+    } else {
+        v as i64
+    }
+}
+
+fn cu(v: usize) -> i64 {
+    clamp(v as i128)
+}
+
+/// (byte width, natural alignment) of the fixed-width element of a primitive type
+pub fn prim_layout(dt: &DataType) -> Option<(usize, usize)> {
+    use DataType::*;
+    Some(match dt {
+        Int8 | UInt8 => (1, 1),
+        Int16 | UInt16 | Float16 => (2, 2),
+        Int32 | UInt32 | Float32 | Date32 | Time32(_) | Decimal32(_, _) | Interval(IntervalUnit::YearMonth) => (4, 4),
+        Int64 | UInt64 | Float64 | Date64 | Time64(_) | Timestamp(_, _) | Duration(_) | Decimal64(_, _) => (8, 8),
+        Interval(IntervalUnit::DayTime) => (8, std::mem::align_of::<arrow_buffer::IntervalDayTime>()),
+        Interval(IntervalUnit::MonthDayNano) => (16, std::mem::align_of::<arrow_buffer::IntervalMonthDayNano>()),
+        Decimal128(_, _) => (16, std::mem::align_of::<i128>()),
+        Decimal256(_, _) => (32, std::mem::align_of::<arrow_buffer::i256>()),
+        _ => return None,
+    })
+}
+
+fn int_sign(dt: &DataType) -> Option<(usize, bool)> {
+    use DataType::*;
+    Some(match dt {
+        Int8 => (1, true),
+        Int16 => (2, true),
+        Int32 => (4, true),
+        Int64 => (8, true),
+        UInt8 => (1, false),
+        UInt16 => (2, false),
+        UInt32 => (4, false),
+        UInt64 => (8, false),
+        _ => return None,
+    })
+}
+
+pub fn type_str(dt: &DataType) -> String {
+    format!("{dt:?}")
+}
+
+/// Type descriptor.  `ok` is false when the data type itself breaks a type-level rule the
+/// specification states in terms of the descriptor (dictionary key not an integer type,
+/// run-end type not Int16/32/64, negative fixed size); the rule is stated in ArrowLayout.tla.
+pub fn type_desc(dt: &DataType) -> Value {
+    use DataType::*;
+    let mut k = "prim";
+    let mut w = 0i64;
+    let mut size = 0i64;
+    let mut mode = "";
+    let mut ids: Vec<i64> = vec![];
+    let mut kt: Vec<String> = vec![];
+    let mut cn: Vec<bool> = vec![];
+    let mut mk = false;
+    let mut ok = true;
+    match dt {
+        Null => k = "null",
+        Boolean => k = "bool",
+        FixedSizeBinary(n) => {
+            k = "fsb";
+            size = *n as i64;
+            ok = *n >= 0;
+        }
+        Binary | LargeBinary => {
+            k = "bin";
+            w = if matches!(dt, Binary) { 4 } else { 8 };
+        }
+        Utf8 | LargeUtf8 => {
+            k = "utf8";
+            w = if matches!(dt, Utf8) { 4 } else { 8 };
+        }
+        BinaryView => k = "binview",
+        Utf8View => k = "utf8view",
+        List(f) | LargeList(f) => {
+            k = "list";
+            w = if matches!(dt, List(_)) { 4 } else { 8 };
+            kt.push(type_str(f.data_type()));
+            cn.push(f.is_nullable());
+        }
+        ListView(f) | LargeListView(f) => {
+            k = "listview";
+            w = if matches!(dt, ListView(_)) { 4 } else { 8 };
+            kt.push(type_str(f.data_type()));
+            cn.push(f.is_nullable());
+        }
+        FixedSizeList(f, n) => {
+            k = "fsl";
+            size = *n as i64;
+            ok = *n >= 0;
+            kt.push(type_str(f.data_type()));
+            cn.push(f.is_nullable());
+        }
+        Struct(fs) => {
+            k = "struct";
+            for f in fs.iter() {
+                kt.push(type_str(f.data_type()));
+                cn.push(f.is_nullable());
+            }
+        }
+        Map(f, _) => {
+            k = "map";
+            w = 4;
+            kt.push(type_str(f.data_type()));
+            cn.push(f.is_nullable());
+            if let Struct(kv) = f.data_type() {
+                mk = kv.first().map(|x| x.is_nullable()).unwrap_or(false);
+            }
+        }
+        Dictionary(kty, v) => {
+            k = "dict";
+            match int_sign(kty) {
+                Some((kw, _)) => w = kw as i64,
+                None => ok = false,
+            }
+            kt.push(type_str(v));
+        }
+        RunEndEncoded(r, v) => {
+            k = "ree";
+            match r.data_type() {
+                Int16 => w = 2,
+                Int32 => w = 4,
+                Int64 => w = 8,
+                _ => ok = false,
+            }
+            kt.push(type_str(r.data_type()));
+            kt.push(type_str(v.data_type()));
+            cn.push(r.is_nullable());
+            cn.push(v.is_nullable());
+        }
+        Union(fs, m) => {
+            k = "union";
+            mode = if *m == UnionMode::Sparse { "sparse" } else { "dense" };
+            for (i, f) in fs.iter() {
+                ids.push(i as i64);
+                kt.push(type_str(f.data_type()));
+                cn.push(f.is_nullable());
+            }
+        }
+        other => match prim_layout(other) {
+            Some((pw, _)) => w = pw as i64,
+            None => {
+                k = "unknown";
+                ok = false;
+            }
+        },
+    }
+    json!({"k": k, "w": w, "size": size, "mode": mode, "ids": ids, "s": type_str(dt), "kt": kt, "cn": cn, "mk": mk, "ok": ok})
+}
+
+/// the validity bitmap as handed to / held by the array
+pub struct NullsDump {
+    pub present: bool,
+    pub nbits: usize,
+    pub boff: usize,
+    pub bits: Vec<u8>,
+    pub nc: usize,
+}
+
+impl NullsDump {
+    pub fn absent() -> NullsDump {
+        NullsDump { present: false, nbits: 0, boff: 0, bits: vec![], nc: 0 }
+    }
+    /// a raw bitmap addressed at the array offset (`ArrayData::try_new` / builder / C Data Interface)
+    /// with an optional declared null count (default: the number of zero bits found)
+    pub fn raw(buf: &Buffer, offset: usize, len: usize, declared: Option<usize>) -> NullsDump {
+        let bytes = buf.as_slice();
+        let nbits = bytes.len().saturating_mul(8);
+        let bits = read_bits(bytes, offset, len);
+        let zeros = bits.iter().filter(|b| **b == 0).count();
+        NullsDump { present: true, nbits, boff: offset, bits, nc: declared.unwrap_or(zeros) }
+    }
+    pub fn of(n: Option<&NullBuffer>, len: usize) -> NullsDump {
+        match n {
+            None => NullsDump::absent(),
+            Some(n) => {
+                let boff = n.offset();
+                let avail = n.len();
+                let bits = read_bits(n.buffer().as_slice(), boff, avail.min(len));
+                NullsDump { present: true, nbits: boff.saturating_add(avail), boff, bits, nc: n.null_count() }
+            }
+        }
+    }
+    fn json(&self) -> Value {
+        json!({"present": self.present, "nbits": cu(self.nbits), "boff": cu(self.boff), "bits": self.bits, "nc": cu(self.nc)})
+    }
+}
+
+fn read_bits(bytes: &[u8], start: usize, n: usize) -> Vec<u8> {
+    let mut out = Vec::new();
+    for i in 0..n.min(1 << 16) {
+        let Some(p) = start.checked_add(i) else { break };
+        if p / 8 >= bytes.len() {
+            break;
+        }
+        out.push((bytes[p / 8] >> (p % 8)) & 1);
+    }
+    out
+}
+
+/// decode up to `n` little-endian integers of `w` bytes starting at element `base`
+fn decode(bytes: &[u8], w: usize, signed: bool, base: usize, n: usize) -> Vec<i64> {
+    let mut out = vec![];
+    for i in 0..n.min(1 << 16) {
+        let Some(e) = base.checked_add(i) else { break };
+        let Some(lo) = e.checked_mul(w) else { break };
+        let Some(hi) = lo.checked_add(w) else { break };
+        if hi > bytes.len() {
+            break;
+        }
+        let mut raw = [0u8; 16];
+        raw[..w].copy_from_slice(&bytes[lo..hi]);
+        let v: i128 = if signed {
+            let neg = bytes[hi - 1] & 0x80 != 0;
+            if neg {
+                for b in raw[w..].iter_mut() {
+                    *b = 0xFF;
+                }
+            }
+            i128::from_le_bytes(raw)
+        } else {
+            u128::from_le_bytes(raw) as i128
+        };
+        out.push(clamp(v));
+    }
+    out
+}
+
+fn buf_json(b: &Buffer, align: usize, base: usize, ints: Vec<i64>) -> Value {
+    let amod = (b.as_ptr() as usize) % align.max(1);
+    json!({"nbytes": cu(b.len()), "amod": amod, "base": cu(base), "ints": ints})
+}
+
+fn raw_bytes(b: &Buffer) -> Vec<i64> {
+    b.as_slice().iter().map(|x| *x as i64).collect()
+}
+
+/// Dump of the parts of an array (what a validating constructor is given).
+/// `decode_prim`: also decode the values of an integer primitive array (run ends child).
+pub fn layout_of_parts(
+    dt: &DataType,
+    len: usize,
+    offset: usize,
+    nulls: &NullsDump,
+    buffers: &[Buffer],
+    kids: Vec<Value>,
+    decode_prim: bool,
+) -> Value {
+    use DataType::*;
+    let t = type_desc(dt);
+    let kind = t["k"].as_str().unwrap().to_string();
+    let mut bufs: Vec<Value> = vec![];
+    let mut views: Option<Vec<Value>> = None;
+    let size_only = |b: &Buffer| buf_json(b, 1, 0, vec![]);
+    for (i, b) in buffers.iter().enumerate() {
+        let v = match (kind.as_str(), i) {
+            ("prim", 0) => {
+                let (w, a) = prim_layout(dt).unwrap_or((1, 1));
+                let ints = match (decode_prim, int_sign(dt)) {
+                    (true, Some((iw, s))) => decode(b.as_slice(), iw, s, offset, len),
+                    _ => vec![],
+                };
+                let _ = w;
+                buf_json(b, a, offset, ints)
+            }
+            ("bin", 0) | ("utf8", 0) | ("list", 0) | ("map", 0) => {
+                let w = t["w"].as_i64().unwrap() as usize;
+                buf_json(b, w, offset, decode(b.as_slice(), w, true, offset, len.saturating_add(1)))
+            }
+            ("utf8", 1) => buf_json(b, 1, 0, raw_bytes(b)),
+            ("listview", 0) | ("listview", 1) => {
+                let w = t["w"].as_i64().unwrap() as usize;
+                buf_json(b, w, offset, decode(b.as_slice(), w, true, offset, len))
+            }
+            ("binview", 0) | ("utf8view", 0) => {
+                let bytes = b.as_slice();
+                let mut vs = vec![];
+                for r in 0..len.min(1 << 16) {
+                    let Some(e) = offset.checked_add(r) else { break };
+                    let Some(lo) = e.checked_mul(16) else { break };
+                    if lo.saturating_add(16) > bytes.len() {
+                        break;
+                    }
+                    let raw = &bytes[lo..lo + 16];
+                    let l = u32::from_le_bytes(raw[0..4].try_into().unwrap());
+                    let bi = u32::from_le_bytes(raw[8..12].try_into().unwrap());
+                    let off = u32::from_le_bytes(raw[12..16].try_into().unwrap());
+                    let b12: Vec<i64> = raw[4..16].iter().map(|x| *x as i64).collect();
+                    vs.push(json!({"len": clamp(l as i128), "b": b12, "bi": clamp(bi as i128), "off": clamp(off as i128)}));
+                }
+                views = Some(vs);
+                buf_json(b, std::mem::align_of::<u128>(), offset, vec![])
+            }
+            ("binview", _) | ("utf8view", _) => buf_json(b, 1, 0, raw_bytes(b)),
+            ("dict", 0) => {
+                let Dictionary(kty, _) = dt else { unreachable!() };
+                match int_sign(kty) {
+                    Some((w, s)) => buf_json(b, w, offset, decode(b.as_slice(), w, s, offset, len)),
+                    None => size_only(b),
+                }
+            }
+            ("union", 0) => buf_json(b, 1, offset, decode(b.as_slice(), 1, true, offset, len)),
+            ("union", 1) => buf_json(b, 4, offset, decode(b.as_slice(), 4, true, offset, len)),
+            _ => size_only(b),
+        };
+        bufs.push(v);
+    }
+    let mut m = serde_json::Map::new();
+    m.insert("t".into(), t);
+    m.insert("len".into(), json!(cu(len)));
+    m.insert("offset".into(), json!(cu(offset)));
+    m.insert("lo_ovf".into(), json!(len.checked_add(offset).is_none()));
+    m.insert("nulls".into(), nulls.json());
+    m.insert("bufs".into(), Value::Array(bufs));
+    if matches!(kind.as_str(), "binview" | "utf8view") {
+        m.insert("views".into(), Value::Array(views.unwrap_or_default()));
+    }
+    m.insert("kids".into(), Value::Array(kids));
+    Value::Object(m)
+}
+
+fn dump(d: &ArrayData, decode_prim: bool) -> Value {
+    let ree = matches!(d.data_type(), DataType::RunEndEncoded(_, _));
+    let kids: Vec<Value> = d.child_data().iter().enumerate().map(|(i, c)| dump(c, ree && i == 0)).collect();
+    layout_of_parts(d.data_type(), d.len(), d.offset(), &NullsDump::of(d.nulls(), d.len()), d.buffers(), kids, decode_prim)
+}
+
+/// physical dump of an array (see the module documentation)
+pub fn to_layout(d: &ArrayData) -> Value {
+    dump(d, false)
+}
+
+/// dump of the children of a candidate (run-end child decoded where the parent needs it)
+pub fn kids_of(dt: &DataType, children: &[ArrayData]) -> Vec<Value> {
+    let ree = matches!(dt, DataType::RunEndEncoded(_, _));
+    children.iter().enumerate().map(|(i, c)| dump(c, ree && i == 0)).collect()
+}
+
+/// schema descriptor of a record batch: one `{s, nullable}` per field
+pub fn schema_desc(s: &arrow_schema::Schema) -> Value {
+    Value::Array(s.fields().iter().map(|f| json!({"s": type_str(f.data_type()), "nullable": f.is_nullable()})).collect())
+}
+
+/// approximate size of a dump (drivers skip events that would be too large for TLC)
+pub fn weight(v: &Value) -> usize {
+    match v {
+        Value::Array(a) => 1 + a.iter().map(weight).sum::<usize>(),
+        Value::Object(o) => 1 + o.values().map(weight).sum::<usize>(),
+        _ => 1,
+    }
+}
